@@ -1002,7 +1002,7 @@ struct static_array<T, ::boost::multi::dimensionality_type{0}, Alloc>  // NOLINT
 	}
 
 	static_array(static_array const& other)  // 5b
-	: array_alloc{other.get_allocator()}, ref{static_array::allocate(other.num_elements(), other.data_elements()), {}} {
+	: array_alloc{multi::allocator_traits<allocator_type>::select_on_container_copy_construction(other.alloc())}, ref{static_array::allocate(other.num_elements(), other.data_elements()), {}} {
 		uninitialized_copy(other.data_elements());
 	}
 
